@@ -1142,6 +1142,11 @@ fn tcp_headers() -> Vec<TcpHeader> {
                                     h.ns = bits & 256 != 0;
                                     h.urgent_pointer = urg;
                                     h.checksum = garbage[i % 3];
+                                    if i % 2 == 1 {
+                                        // every second header gets its options through a history: 40 bytes of 0xff first, then
+                                        // the target (the unused tail of the option buffer must not reach any checksum)
+                                        h.set_options_raw(&[0xff; 40]).unwrap();
+                                    }
                                     h.set_options_raw(&o).unwrap();
                                     v.push(h);
                                 }
